@@ -199,6 +199,9 @@ func (fs *FakeServer) serve(ci int, c net.Conn) {
 			hdr += fmt.Sprintf("Content-Length: %d\r\n\r\n", len(ExpectedBody(id, a)))
 			payload = b
 		}
+		if req.Method == "HEAD" {
+			payload = nil // the head only: not even a chunked terminator
+		}
 		out = append(out, hdr...)
 		out = append(out, payload...)
 		// split point for the delayed tail
